@@ -23,7 +23,7 @@ func init() {
 			"the six content encryptions select AES-GCM 16/24/32 and AES-CBC-HMAC 32/48/64 byte keys, and every constructor accepts exactly the algorithms its codec implements; C16.gate - a payload is returned by Verify only under a nil " +
 			"verification error, by Decrypt only after a nil decryption error, CBC-HMAC decrypts only after the constant-time tag comparison succeeded, HMAC verification compares in constant time after a length check; C16.gate-flag - " +
 			"'nothing decrypted' is decided by the attempts' errors, not by the plaintext being nil (an empty plaintext is a legitimate result); C16.aad - for parsed objects the authenticated bytes are the received protected header " +
-			"(not a re-serialisation) and the additional data is appended iff present; C16.width - ECDSA r and s are left-padded to the curve's byte size. " +
+			"(not a re-serialisation) and the additional data is appended iff present, and no address of a loop variable is kept beyond its iteration (per-signature 'original'); C16.parse - the buffer constructor answers nil for a nil slice only (absent and empty members stay apart); C16.tables also: the CBC-HMAC key is split MAC = initial half, ENC = final half (RFC 7518 5.2.2.1); C16.width - ECDSA r and s are left-padded to the curve's byte size. " +
 			"Not decided: correctness and tamper resistance across the algorithm matrix and every single-bit flip (cryptographic/runtime). Deliberately not checked: the serialized CBC tag length (16 for all three variants; symmetric on both sides).",
 		Assume: []string{"crypto/*, encoding/json, math/big behave as documented", "RFC 7518 tables as transcribed in DESIGN Appendix B"},
 		Run:    runC16,
@@ -108,7 +108,11 @@ func switchTable(P *core.Program, fn *ssa.Function, typeSuffix string, k int) []
 							}
 							switch lv := l.(type) {
 							case *ast.Ident:
-								ci.assigns[lv.Name] = exprValue(info, x.Rhs[i])
+								name := lv.Name
+								if o, ok := info.ObjectOf(lv).(*types.Var); ok && o != nil && !o.IsField() && o.Parent() != o.Pkg().Scope() {
+									name = P.LocalVarName(fn, o) // the pinned name of a renamed local
+								}
+								ci.assigns[name] = exprValue(info, x.Rhs[i])
 							case *ast.SelectorExpr:
 								ci.assigns[lv.Sel.Name] = exprValue(info, x.Rhs[i])
 							}
@@ -200,9 +204,10 @@ func runC16(c *Ctx) {
 	R.Require("C16.tables", 14)
 	R.Require("C16.gate", 5)
 	R.Require("C16.gate-flag", 1)
-	R.Require("C16.aad", 3)
+	R.Require("C16.aad", 4)
 	R.Require("C16.width", 5)
 	R.Require("C16.mac-input", 1)
+	R.Require("C16.parse", 1)
 	for _, f := range P.ModuleFuncs(pkg, pkg+"/cipher") {
 		R.Funcs[core.QualName(f)] = true
 	}
@@ -293,6 +298,124 @@ func runC16(c *Ctx) {
 		})
 		R.Check(ok, "C16.tables", "jose|newAESCBC|double-key", P.Pos(cbc.Pos()), "AES-CBC-HMAC keys are twice the AES key size (MAC key + encryption key)", "AES-CBC-HMAC key size is not 2 x the AES key size", nil)
 	}
+	// ---- the two halves of a CBC-HMAC key go where RFC 7518 5.2.2.1 puts them: MAC_KEY is the initial half, ENC_KEY the
+	// final half.  Seal and Open of one build agree with each other whichever half they use, so no round trip and no bit
+	// flip shows an exchange - but then half of the key is not used for what it is for (a different key sharing that half
+	// decrypts) and nothing interoperates.
+	if nc := P.Func("https/jose/cipher", "NewCBCHMAC"); R.Anchor(nc != nil, "C16.tables", "https/jose/cipher.NewCBCHMAC") {
+		var keyP *ssa.Parameter
+		for _, q := range nc.Params {
+			if sl, ok := q.Type().Underlying().(*types.Slice); ok && isByte(sl.Elem()) {
+				keyP = q
+			}
+		}
+		isHalf := func(v ssa.Value) bool {
+			bo, ok := core.StripConv(v).(*ssa.BinOp)
+			if !ok {
+				return false
+			}
+			k, isK := core.ConstInt(bo.Y)
+			call, isCall := core.StripConv(bo.X).(*ssa.Call)
+			if !isK || !isCall || !((bo.Op == token.QUO && k == 2) || (bo.Op == token.SHR && k == 1)) {
+				return false
+			}
+			b, isB := call.Call.Value.(*ssa.Builtin)
+			return isB && b.Name() == "len" && call.Call.Args[0] == ssa.Value(keyP)
+		}
+		// which half of the key a value is: "first", "second" or ""
+		half := func(v ssa.Value) string {
+			sl, ok := core.StripConv(v).(*ssa.Slice)
+			if !ok || sl.X != ssa.Value(keyP) || sl.Max != nil {
+				return ""
+			}
+			switch {
+			case sl.Low == nil && sl.High != nil && isHalf(sl.High):
+				return "first"
+			case sl.High == nil && sl.Low != nil && isHalf(sl.Low):
+				return "second"
+			}
+			return ""
+		}
+		enc, mac := "", ""
+		var encPos, macPos string
+		core.EachInstr(nc, func(in ssa.Instruction) {
+			switch x := in.(type) {
+			case *ssa.Call:
+				if par, ok := x.Call.Value.(*ssa.Parameter); ok && !x.Call.IsInvoke() && len(x.Call.Args) == 1 {
+					if _, isSig := par.Type().Underlying().(*types.Signature); isSig {
+						enc, encPos = half(x.Call.Args[0]), P.InstrPos(x)
+						if enc == "" {
+							enc = "neither half (" + core.Path(x.Call.Args[0]) + ")"
+						}
+					}
+				}
+			case *ssa.Store:
+				if fv := core.FieldVar(x.Addr); fv != nil && core.FieldVarName(fv) == "integrityKey" {
+					mac, macPos = half(x.Val), P.InstrPos(x)
+					if mac == "" {
+						mac = "neither half (" + core.Path(x.Val) + ")"
+					}
+				}
+			}
+		})
+		if encPos == "" {
+			encPos = P.Pos(nc.Pos())
+		}
+		R.Check(keyP != nil && enc == "second" && mac == "first", "C16.tables", "jose/cipher|NewCBCHMAC|key-halves", encPos,
+			"the block cipher is keyed with the final half of the key and the HMAC with the initial half (RFC 7518 5.2.2.1)",
+			fmt.Sprintf("the block cipher is keyed with the %s of the CBC-HMAC key (at %s) and the HMAC with the %s (at %s); RFC 7518 5.2.2.1 has MAC_KEY = initial half, ENC_KEY = final half: part of the key is not used for its purpose, so a different key that shares the used part decrypts the object", orNone(enc), encPos, orNone(mac), macPos), nil)
+	}
+	// ---- "absent" and "empty" stay apart in the serialised forms: the parsers tell a missing member from an empty one
+	// by the buffer being nil, so the buffer constructor answers nil for a nil slice only (a signature over the empty
+	// payload has a payload member)
+	if nb := P.Func("https/jose", "newBuffer"); R.Anchor(nb != nil, "C16.parse", "https/jose.newBuffer") {
+		ok, n := true, 0
+		where := P.Pos(nb.Pos())
+		for _, ret := range core.Returns(nb) {
+			if len(ret.Results) != 1 {
+				continue
+			}
+			for _, leaf := range core.ValueLeaves(ret.Results[0]) {
+				if !core.IsNilConst(leaf) {
+					continue
+				}
+				n++
+				// the nil answer is given under "data == nil" and under nothing weaker
+				good := false
+				blk := ret.Block()
+				if phi, isPhi := ret.Results[0].(*ssa.Phi); isPhi {
+					for i, e := range phi.Edges {
+						if e == leaf {
+							blk = phi.Block().Preds[i]
+						}
+					}
+				}
+				for _, a := range append(core.GuardAtoms(blk), core.EdgeAtoms(blk, 0)...) {
+					if _, isPar := core.StripConv(a.LV).(*ssa.Parameter); isPar && a.Op == "==" && a.R == "nil" {
+						good = true
+					}
+				}
+				if !good {
+					ok, where = false, P.InstrPos(ret)
+				}
+			}
+		}
+		R.Check(ok && n > 0, "C16.parse", "jose|newBuffer|nil-for-nil-only", where,
+			"the buffer constructor answers nil exactly for a nil slice",
+			"the buffer constructor answers nil for more than a nil slice (an empty one): the serialisers then leave the member out and the parsers, which read a nil buffer as 'member missing', reject an object signed over the empty payload", nil)
+	}
+	// ---- nothing keeps the address of a loop variable beyond its iteration (this module's go directive predates
+	// per-iteration loop variables, so every kept address would point at the last element): the per-signature
+	// 'original' of a parsed JWS is what its protected header is authenticated from
+	for _, pkg := range []string{"https/jose", "https/jose/cipher"} {
+		for _, fn := range P.ModuleFuncs(pkg) {
+			for i, esc := range core.LoopVarEscapes(fn) {
+				R.Fail("C16.aad", fmt.Sprintf("%s|%s|loop-variable-address-kept#%d", pkg[strings.Index(pkg, "/")+1:], core.FuncName(fn), i+1), P.InstrPos(esc.Store),
+					"the address of the loop variable "+esc.Name+" is stored beyond its iteration; with this module's go directive the variable is shared by all iterations, so every kept pointer ends up at the last element (for a parsed JWS: every signature is authenticated against the last signature's protected header)", nil)
+			}
+		}
+	}
+	R.OK("C16.aad", "jose|loop-variable-addresses", "https/jose", "no address of a loop variable is kept beyond its iteration in https/jose and https/jose/cipher")
 	// ---- accepted sets of the constructors = what the codecs implement
 	acc := func(ctor, typ string, impl map[string]string, what string) {
 		fn := get(ctor)
@@ -827,4 +950,11 @@ func joseDecryptHosts(dec *ssa.Function) []*ssa.Function {
 		}
 	})
 	return out
+}
+
+func orNone(s string) string {
+	if s == "" {
+		return "nothing found"
+	}
+	return s + " half"
 }
